@@ -1650,9 +1650,100 @@ func ruleInnerFlushOverrides(r *Run, rule string) {
 				}
 			}
 			r.check(len(merged) == 0, rule, fmt.Sprintf("%s.(CPU).Run:inner-flush#%d", v.rel, n), is.Pos(), "an inner flush proposed while the older instructions are finished REPLACES the pending restart pc and sequence limit with its own (it comes from an older instruction); merged values: %v", merged)
+			// completeness: every local of the main loop that the flush branch READS (the sequence limit
+			// of the write units, the restart pc) and that the execute phase sets from a unit response
+			// is replaced by the inner flush
+			assigned := map[types.Object]bool{}
+			for _, st := range is.Body.List {
+				if as, ok := st.(*ast.AssignStmt); ok {
+					for _, l := range as.Lhs {
+						if id, ok := ast.Unparen(l).(*ast.Ident); ok {
+							assigned[info.Uses[id]] = true
+						}
+					}
+				}
+			}
+			var missing []string
+			fsv := flushStateVars(v, flush)
+			if len(fsv) < 2 {
+				r.undecided(rule, fmt.Sprintf("%s.(CPU).Run:inner-flush#%d:complete", v.rel, n), is.Pos(), "the flush state (restart pc and sequence limit set from unit responses and read by the flush branch) was not recognised: %d variables", len(fsv))
+				return true
+			}
+			for o := range fsv {
+				if !assigned[o] {
+					missing = append(missing, o.Name()+" "+typeName(o.Type()))
+				}
+			}
+			sort.Strings(missing)
+			r.check(len(missing) == 0, rule, fmt.Sprintf("%s.(CPU).Run:inner-flush#%d:complete", v.rel, n), is.Pos(), "an inner flush replaces ALL of the flush state the drain and the restart read (restart pc, sequence limit); left at the younger flush's value: %v", missing)
 			return true
 		})
 	}
+}
+
+// flushStateVars: the locals of the main loop that (a) are read inside the flush branch and
+// (b) are assigned outside it from a field of a unit response.
+func flushStateVars(v *variant, flush *ast.IfStmt) map[types.Object]bool {
+	info := v.info
+	out := map[types.Object]bool{}
+	run := v.mainLoop()
+	if run == nil {
+		return out
+	}
+	inFlush := func(p token.Pos) bool { return flush.Body.Pos() <= p && p < flush.Body.End() }
+	fromResp := map[types.Object]bool{}
+	ast.Inspect(run, func(m ast.Node) bool {
+		as, ok := m.(*ast.AssignStmt)
+		if !ok || inFlush(as.Pos()) || len(as.Lhs) != len(as.Rhs) {
+			return true
+		}
+		for i, l := range as.Lhs {
+			id, ok := ast.Unparen(l).(*ast.Ident)
+			if !ok {
+				continue
+			}
+			o, _ := info.Uses[id].(*types.Var)
+			if o == nil {
+				continue
+			}
+			isResp := false
+			ast.Inspect(as.Rhs[i], func(x ast.Node) bool {
+				if sel, ok := x.(*ast.SelectorExpr); ok {
+					if s := info.Selections[sel]; s != nil && s.Kind() == types.FieldVal {
+						if n := namedOf(s.Recv()); n != nil && strings.HasSuffix(strings.ToLower(n.Obj().Name()), "resp") {
+							isResp = true
+						}
+					}
+				}
+				return true
+			})
+			if isResp {
+				fromResp[o] = true
+			}
+		}
+		return true
+	})
+	// read in the flush branch: appears other than as the left side of an assignment
+	lhs := map[*ast.Ident]bool{}
+	ast.Inspect(flush.Body, func(m ast.Node) bool {
+		if as, ok := m.(*ast.AssignStmt); ok {
+			for _, l := range as.Lhs {
+				if id, ok := ast.Unparen(l).(*ast.Ident); ok {
+					lhs[id] = true
+				}
+			}
+		}
+		return true
+	})
+	ast.Inspect(flush.Body, func(m ast.Node) bool {
+		if id, ok := m.(*ast.Ident); ok && !lhs[id] {
+			if o, ok := info.Uses[id].(*types.Var); ok && fromResp[o] {
+				out[o] = true
+			}
+		}
+		return true
+	})
+	return out
 }
 
 // ruleWriteBackBounds (R03.20): a line can lie partly below address 0 (a squashed
